@@ -123,3 +123,44 @@ func VerifC20Modify() {
 	}
 	verifCheckInserted(string(body), string(dec), parseNonce(csp))
 }
+
+func verifHTMLResponse(enc string, body []byte) *http.Response {
+	wire := verifEncode(enc, body)
+	resp := &http.Response{
+		Header:        http.Header{},
+		Body:          io.NopCloser(bytes.NewReader(wire)),
+		ContentLength: int64(len(wire)),
+		Request:       &http.Request{URL: &url.URL{Path: "/"}, Header: http.Header{}},
+	}
+	resp.Header.Set("Content-Length", strconv.Itoa(len(wire)))
+	resp.Header.Set("Content-Type", "text/html")
+	if enc != "" {
+		resp.Header.Set("Content-Encoding", enc)
+	}
+	return resp
+}
+
+// VerifC20TwoInFlight: the reverse proxy copies a rewritten body to the browser after
+// modifyResponse has returned, while other responses are being rewritten: two pages are
+// rewritten one after the other and only then are both bodies read - each must still be its
+// own document, of the announced length.
+func VerifC20TwoInFlight() {
+	enc := []string{"", "gzip", "br"}[symChoose(3)]
+	body1 := []byte("<p>1" + symString("b1", symParam("B")) + "</p>")
+	body2 := []byte("<p>2" + symString("b2", symParam("B")) + "</p>")
+	h := &Handler{log: slog.New(slog.NewTextHandler(io.Discard, nil))}
+	r1, r2 := verifHTMLResponse(enc, body1), verifHTMLResponse(enc, body2)
+	symAssert(h.modifyResponse(r1) == nil && h.modifyResponse(r2) == nil, "both responses are rewritten")
+	symCover("two-in-flight")
+	for i, r := range []*http.Response{r1, r2} {
+		after, rerr := io.ReadAll(r.Body)
+		symAssert(rerr == nil, "body readable")
+		symAssert(r.Header.Get("Content-Length") == strconv.Itoa(len(after)) && r.ContentLength == int64(len(after)), "Content-Length equals the bytes sent, also with another response in flight")
+		dec, derr := verifDecode(enc, after)
+		symAssert(derr == nil, "the body decodes with the declared encoding")
+		if derr != nil {
+			return
+		}
+		verifCheckInserted(string([][]byte{body1, body2}[i]), string(dec), "")
+	}
+}
